@@ -61,6 +61,12 @@ def _excluded_exponent(st, guard, text):
     return True
 
 
+def _number_surgery(v):
+    """an opaque string that was derived from the rendering of a number by a string operation the analysis does not model
+    (slice, replace, strip of characters ...): sign, digits or the decimal point may have been lost on the way"""
+    return "('num'" in v.tag or "'fmt', ('opaque', \"Decimal(" in v.tag
+
+
 def plain_decimal_proof(st, part, guard=None):
     """True when the formatted part cannot contain exponent notation"""
     _k, value, spec, conv = part
@@ -79,6 +85,8 @@ def plain_decimal_proof(st, part, guard=None):
                 if not isinstance(p, str) and not plain_decimal_proof(st, p, g):
                     return False
             continue
+        if isinstance(v, SStr) and _number_surgery(v):
+            return False        # text cut out of / patched into a rendered number: not proven to read back as the number
         if isinstance(v, (Str, SStr)):
             continue
         if isinstance(v, Opaque) and v.tag.startswith('Decimal('):
@@ -114,6 +122,13 @@ def check_template(col, st, cat, where, label):
             idx = cat.parts.index(part)
             prev = cat.parts[idx - 1] if idx > 0 and isinstance(cat.parts[idx - 1], str) else ''
             letter = prev[-1:] if prev else '?'
+            surgery = any(isinstance(y, SStr) and _number_surgery(y) for _g, y in guarded_alts(st, part[1]))
+            if surgery:
+                col.report('C07.R2', where, 'template "%s" word %s' % (skel, letter),
+                           'the text of the %s word is cut out of (or patched into) the rendering of the number by a string '
+                           'operation: it is not proven to read back as the intended value (a sign, a digit or the decimal '
+                           'point can be lost)' % letter)
+                continue
             col.report('C07.R2', where, 'template "%s" word %s' % (skel, letter),
                        'the %s value is formatted with %s: a float whose repr uses exponent notation (1e-05, 1e+16) is '
                        'emitted as such, which firmware reads as a different number'
